@@ -6,6 +6,7 @@ CFG = {
         "Leptos.Reactive.C09_effect_double_run_witness",
         "Leptos.Reactive.C09_run_justified_full_old_false",
         "Leptos.Reactive.C09_run_justified_full",
+        "Leptos.Reactive.C09_memo_at_most_once",
         "Leptos.Reactive.C09_run_justified",
         "Leptos.Reactive.C09_memo_run_justified",
     ],
